@@ -16,3 +16,15 @@ func Max(a, b int) int {
 	}
 	return b
 }
+
+// BufferCap returns min(n, limit*factor) for sizing result buffers. It never
+// overflows: a very large limit simply yields n.
+func BufferCap(n, limit, factor int) int {
+	if n <= 0 || limit <= 0 || factor <= 0 {
+		return 0
+	}
+	if limit > n/factor {
+		return n
+	}
+	return limit * factor
+}
